@@ -156,6 +156,10 @@ class EFloatFormat(EncodableFormat):
             return False
         elif x.is_zero():
             return not (x.s and self.nan_kind == EFloatNanKind.NEG_ZERO)
+        elif isinstance(x, Float) and x.is_nar():
+            # the specials have codes of their own even where no finite
+            # non-zero value does
+            return True
         return self.has_nonzero()
 
     def canonical_under(self, x: Float) -> bool:
